@@ -7,7 +7,7 @@
    ZeroCopyReadPacketData (zc=true) until an I/O-class error (EOF, unexpected EOF, read error),
    a panic, or `fuel` calls; each result carries the list of make([]byte, n) requests of the call.
    The only hypothesis is that the stream delivers bytes (0..255). *)
-From GP Require Import Base PcapModel PcapStream PcapSafe PcapSafeTop.
+From GP Require Import Base PcapModel PcapStream PcapSafe PcapSafeTop SnoopOrigModel.
 Open Scope Z_scope.
 
 (* ---------------------------------------------------------------- classic pcap reader *)
@@ -137,3 +137,27 @@ Proof.
   split; [|split; [reflexivity|vm_compute; reflexivity]].
   cbn. repeat constructor; unfold byte_ok; lia.
 Qed.
+
+(* ---------------------------------------------------------------- the defect that was repaired *)
+(* snoop_read_orig transcribes snoop.go before the fix: commit (pad computed from the ORIGINAL
+   length).  It violates C15_snoop_no_panic and C15_snoop_alloc; the witnesses are replayed on
+   the unchanged tree by corpus/C15pcap/snoop-pad.cases. *)
+
+(* a truncated capture that is valid per RFC 1761 (100 bytes on the wire, 4 captured, no pad) *)
+Theorem C15_snoop_orig_no_panic_refuted :
+  exists s, bytes_ok (flat s) /\
+    fst (fst (fst (snoop_read_orig {| s_lt := 4; s_pcap := 0 |} s))) = Panic 1.
+Proof.
+  exists [Chunk [0;0;0;100; 0;0;0;4; 0;0;0;28; 0;0;0;0; 0;0;0;7; 0;0;0;9; 1;2;3;4]].
+  split; [cbn; repeat constructor; unfold byte_ok; lia|vm_compute; reflexivity].
+Qed.
+
+(* a 28-byte record whose length field makes the reader request 4 294 967 271 bytes *)
+Theorem C15_snoop_orig_alloc_refuted :
+  exists s, bytes_ok (flat s) /\ length (flat s) = 28%nat /\
+    snd (snoop_read_orig {| s_lt := 4; s_pcap := 0 |} s) = [4294967271].
+Proof.
+  exists [Chunk [0;0;0;4; 0;0;0;4; 255;255;255;255; 0;0;0;0; 0;0;0;7; 0;0;0;9; 1;2;3;4]].
+  split; [cbn; repeat constructor; unfold byte_ok; lia|split; [reflexivity|vm_compute; reflexivity]].
+Qed.
+Print Assumptions C15_snoop_orig_no_panic_refuted.
